@@ -52,14 +52,20 @@ Print Assumptions C08_path_run.
 (** classification: once a step is missing (or meets a non-map, or an error
     such as an unbound root) the path denotes an absent-field error *)
 Theorem C08_path_absent_propagates : forall fs v,
-  (forall m, v <> VMap m) -> fs <> [] ->
+  (forall m, v <> VMap m) -> is_err v = false -> fs <> [] ->
   exists f, fold_left field fs v = VErr (EAttribute f).
 Proof. exact path_absent_propagates. Qed.
 Print Assumptions C08_path_absent_propagates.
 
+(** a failure is carried along the path unchanged: an unbound root stays
+    "unbound" (absent data), a division by zero stays a division by zero *)
+Theorem C08_path_from_error : forall fs e, fold_left field fs (VErr e) = VErr e.
+Proof. exact path_from_error. Qed.
+Print Assumptions C08_path_from_error.
+
 Example C08_witness :
   fold_left field [[97]; [98]] (VMap [([97], VMap [([98], VInt 7)])]) = VInt 7 /\
   fold_left field [[97]; [122]] (VMap [([97], VMap [([98], VInt 7)])]) = VErr (EAttribute [122]) /\
-  fold_left field [[97]; [98]] (VErr (EBinding [120])) = VErr (EAttribute [98]) /\
+  fold_left field [[97]; [98]] (VErr (EBinding [120])) = VErr (EBinding [120]) /\
   absent (EAttribute [98]) = true /\ absent EDivZero = false.
 Proof. vm_compute. repeat split. Qed.
